@@ -40,6 +40,21 @@ fn main() {
     };
     let cmd = args[1].as_str();
     let id = args[2].as_str();
+    if cmd == "dump-ing" {
+        let f = assets::Fmt::from_name(id).expect("fmt");
+        let ctx = std::sync::Arc::new(sdk::make_context(&serde_json::json!({})));
+        let mut r = rng::Rng::new(1);
+        let a = assets::generate(f, &mut r);
+        let mut s = sdk::sign_plain(&ctx, &sdk::simple_definition("A"), "ed25519", f.mime(), &a).expect("sign");
+        if args.get(3).map(|x| x == "corrupt").unwrap_or(false) { let n = s.len(); s[n - 5] ^= 1; }
+        let mut b = c2pa::Builder::from_shared_context(&ctx).with_definition(sdk::simple_definition("B")).unwrap();
+        b.add_ingredient_from_stream(serde_json::json!({"title":"ing","relationship":"parentOf"}).to_string(), f.mime(), &mut std::io::Cursor::new(s)).unwrap();
+        let mut d = std::io::Cursor::new(Vec::new());
+        b.sign(sdk::make_signer("ed25519").as_ref(), f.mime(), &mut std::io::Cursor::new(assets::generate(f, &mut r)), &mut d).unwrap();
+        let rep = sdk::read_plain(&ctx, f.mime(), &d.into_inner()).expect("read");
+        println!("{}", serde_json::to_string_pretty(&rep.json).unwrap());
+        return;
+    }
     if cmd == "dump" {
         // dump <fmt> <default|box> : sign a tiny asset and print the detailed report
         let f = assets::Fmt::from_name(id).expect("fmt");
